@@ -90,9 +90,12 @@ namespace Clipper2Lib
   inline PathsD MinkowskiSum(const PathD& pattern, const PathD& path, bool isClosed, int decimalPlaces = 2)
   {
     int error_code = 0;
+    CheckPrecisionRange(decimalPlaces, error_code);
+    if (error_code) return PathsD();
     double scale = pow(10, decimalPlaces);
     Path64 pat64 = ScalePath<int64_t, double>(pattern, scale, error_code);
     Path64 path64 = ScalePath<int64_t, double>(path, scale, error_code);
+    if (error_code) return PathsD();
     Paths64 tmp = detail::Union(detail::Minkowski(pat64, path64, true, isClosed), FillRule::NonZero);
     return ScalePaths<double, int64_t>(tmp, 1 / scale, error_code);
   }
@@ -105,9 +108,12 @@ namespace Clipper2Lib
   inline PathsD MinkowskiDiff(const PathD& pattern, const PathD& path, bool isClosed, int decimalPlaces = 2)
   {
     int error_code = 0;
+    CheckPrecisionRange(decimalPlaces, error_code);
+    if (error_code) return PathsD();
     double scale = pow(10, decimalPlaces);
     Path64 pat64 = ScalePath<int64_t, double>(pattern, scale, error_code);
     Path64 path64 = ScalePath<int64_t, double>(path, scale, error_code);
+    if (error_code) return PathsD();
     Paths64 tmp = detail::Union(detail::Minkowski(pat64, path64, false, isClosed), FillRule::NonZero);
     return ScalePaths<double, int64_t>(tmp, 1 / scale, error_code);
   }
